@@ -90,3 +90,25 @@ Theorem C02_Ht_hermitian_two_block :
     adj (sol "H_tilde") == sol "H_tilde".
 Proof. intros. eapply Ht_herm_tb; eassumption. Qed.
 Print Assumptions C02_Ht_hermitian_two_block.
+
+(** End-to-end form of the tie (see Props/C01.v, [C01_tie_conclusions]): for every k_semeq case
+    where [check_alg] and [inputs_ok] evaluate to true, the unitarity, adjoint and Hermiticity
+    clauses hold for the implementation's tables up to total order N. *)
+From PV.Alg Require Import SemExec SemExecSound TruncTie.
+From PV.Series Require Import Exec.
+From PV.Block Require Import QLemmas QInst.
+Theorem C02_tie_conclusions :
+  forall (D k N : nat) (bl : list nat) (msk : list (list bool)) (cb : list bool) (El : list gq)
+         (sols : list (string * tser gq)),
+    check_alg D k N bl msk cb El false sols main_alg = true ->
+    inputs_ok D k N bl msk cb El sols = true ->
+    let BA := BAi D k bl msk cb in
+    let sol := asol D k sols in
+    eqN D k N (sol "U†" * sol "U") 1 /\ eqN D k N (sol "U" * sol "U†") 1 /\
+    eqN D k N (adj (sol "U")) (sol "U†") /\ eqN D k N (adj (sol "H_tilde")) (sol "H_tilde").
+Proof.
+  intros D k N bl msk cb El sols H1 H2 BA sol.
+  destruct (tie_conclusions D k N bl msk cb El sols H1 H2) as (_ & _ & a & b & c & d & _).
+  exact (Logic.conj a (Logic.conj b (Logic.conj c d))).
+Qed.
+Print Assumptions C02_tie_conclusions.
